@@ -4,9 +4,9 @@ package main
 // consume no input is bounded by nothing in the bytes.  For maps the duplicate-key rejection is what ends
 // the item loop (the second empty key is a duplicate); the oracle counts the element decodes through a
 // self-deserialising counting type and bounds the wall time of every call.  Slices of zero-width
-// elements iterate as often as their count says by design (Lean: C02_zero_size_items_witness, outside the
-// property): they are decoded with counts up to 65535 only and are exempt from the count oracle, not from
-// the time oracle.
+// elements iterate (and append) as often as their count says — a defect of the unchanged tree against the
+// last clause of C02 (known finding, trigger zero-width-sequence-elements; Lean: C02_zero_size_items_witness):
+// they are decoded with counts up to 2^20, enough to show the proportionality without burning time.
 
 import (
 	"context"
@@ -34,7 +34,7 @@ func (z *ZC) Decode([]byte) (int, error) {
 type zTarget struct {
 	kind  string
 	fresh func() any
-	// a zero-width *sequence*: iterates by its count, by design
+	// a zero-width *sequence*: iterates by its count (known finding)
 	seq bool
 }
 
@@ -127,6 +127,16 @@ func genZ(rng *hx.Rng, t zTarget, width string) []string {
 		counts = append(counts, 0x10000, 1<<24, 1<<28, 1<<31-1, 1<<31, 1<<32-1)
 	}
 	var out []string
+	if w >= 4 && t.seq {
+		// 4-6 input bytes, 2^16 and 2^20 rounds: proportional to the count field, cheap enough for every run
+		for _, c := range []uint64{1 << 16, 1 << 20} {
+			for _, tail := range [][]byte{nil, {1, 2}} {
+				data := make([]byte, w)
+				putLE(data, 0, w, c)
+				out = append(out, fmt.Sprintf("x Z:%s:%s %d %s", t.kind, width, rng.Intn(2), hx.Hex(append(data, tail...))))
+			}
+		}
+	}
 	for _, c := range counts {
 		for _, tail := range [][]byte{nil, {0}, {1, 2, 3}, rbytes(rng, 4, 9)} {
 			data := make([]byte, w)
